@@ -961,15 +961,19 @@ def esubst(e, defs, depth=3):
         setattr(n, slot, getattr(e, slot))
     n.a = [esubst(c, defs, depth) if isinstance(c, E) else c for c in e.a]
     if n.k == "idx" and n.a[0] is not e.a[0]:
-        # (&A[e])[x] and (A + e)[x] are A[e + x]
-        b = n.a[0]
-        while b.k == "cast" and b.ty and "*" in b.ty and b.a[0].ty == b.ty:
-            b = b.a[0]
-        if b.k == "un" and b.op == "&" and b.a[0].k == "idx":
-            n.a = [b.a[0].a[0], _plus(b.a[0].a[1], n.a[1])]
-        elif b.k == "bin" and b.op == "+" and b.a[0].ty and ("*" in b.a[0].ty or "[" in b.a[0].ty):
-            n.a = [b.a[0], _plus(b.a[1], n.a[1])]
+        _simplify_idx(n)
     return n
+
+
+def _simplify_idx(n):
+    """in place: (&A[e])[x] and (A + e)[x] are A[e + x]; *(&A[e]) handled by the callers that need it"""
+    b = n.a[0]
+    while b.k == "cast" and b.ty and "*" in b.ty and b.a[0].ty == b.ty:
+        b = b.a[0]
+    if b.k == "un" and b.op == "&" and b.a[0].k == "idx":
+        n.a = [b.a[0].a[0], _plus(b.a[0].a[1], n.a[1])]
+    elif b.k == "bin" and b.op == "+" and b.a[0].ty and ("*" in b.a[0].ty or "[" in b.a[0].ty):
+        n.a = [b.a[0], _plus(b.a[1], n.a[1])]
 
 
 def _plus(x, y):
@@ -978,3 +982,220 @@ def _plus(x, y):
     if is_zero_lit(x):
         return y
     return E("bin", op="+", a=[x, y], ty=x.ty, line=x.line)
+
+
+# --------------------------------------------------------------------------------------------------
+# statement-level inlining of internal helper functions (context-sensitive analyses, and rules written against one function)
+def _clone_e(e, vmap):
+    if e is None or not isinstance(e, E):
+        return e
+    if e.k == "var" and e.decl in vmap:
+        r = vmap[e.decl]
+        if r.k == "var":
+            n = E("var")
+            for slot in E.__slots__:
+                setattr(n, slot, getattr(r, slot))
+            n.a = []
+            n.line = e.line
+            return n
+        return _clone_e(r, {})
+    n = E(e.k)
+    for slot in E.__slots__:
+        setattr(n, slot, getattr(e, slot))
+    n.a = [_clone_e(c, vmap) if isinstance(c, E) else c for c in e.a]
+    if n.k == "idx" and vmap and e.a[0].k == "var" and e.a[0].decl in vmap:
+        _simplify_idx(n)
+    return n
+
+
+def _clone_s(s, vmap):
+    if s is None or not isinstance(s, S):
+        return s
+    n = S(s.k)
+    for slot in S.__slots__:
+        setattr(n, slot, getattr(s, slot))
+    n.e = _clone_e(s.e, vmap)
+    n.cond = _clone_e(s.cond, vmap)
+    n.inc = _clone_e(s.inc, vmap)
+    n.init = _clone_s(s.init, vmap) if isinstance(s.init, S) else _clone_e(s.init, vmap)
+    n.then = _clone_s(s.then, vmap)
+    n.els = _clone_s(s.els, vmap)
+    if isinstance(s.body, list):
+        n.body = [_clone_s(c, vmap) for c in s.body]
+    else:
+        n.body = _clone_s(s.body, vmap)
+    if s.var is not None and isinstance(s.var, E):
+        n.var = _clone_e(s.var, vmap)
+    if s.clauses:
+        n.clauses = [(ck, cargs, [_clone_e(x, vmap) for x in exprs]) for ck, cargs, exprs in s.clauses]
+    return n
+
+
+def _has_return(x):
+    items = x if isinstance(x, list) else [x]
+    return any(st.k == "return" for it in items if it is not None for st in swalk(it))
+
+
+def _stmts_of(s):
+    if s is None:
+        return []
+    return list(s.body) if s.k == "block" else [s]
+
+
+def _always_returns(stmts):
+    if not stmts:
+        return False
+    last = stmts[-1]
+    if last.k == "return":
+        return True
+    if last.k == "block":
+        return _always_returns(last.body)
+    if last.k == "if" and last.els is not None:
+        return _always_returns(_stmts_of(last.then)) and _always_returns(_stmts_of(last.els))
+    return False
+
+
+def tailify(stmts):
+    """statement list of a function body with the returned values dropped and every return removed:  if (c) { A; return x; } B;
+    becomes  if (c) { A; } else { B; }.  None when a return sits inside a loop (no structured equivalent without goto)."""
+    out = []
+    for k, st in enumerate(stmts):
+        if st.k == "return":
+            if st.e is not None and any(x.k in ("asg", "incdec", "call") for x in ewalk(st.e)):
+                out.append(S("expr", e=st.e, line=st.line))
+            return out
+        if not _has_return(st):
+            out.append(st)
+            continue
+        rest = stmts[k + 1:]
+        if st.k == "block":
+            inner = tailify(list(st.body) + rest)
+            if inner is None:
+                return None
+            return out + inner
+        if st.k == "if":
+            tl, el = _stmts_of(st.then), _stmts_of(st.els)
+            t_ret, e_ret = _always_returns(tl), _always_returns(el)
+            if t_ret and e_ret:
+                T, E_ = tailify(tl), tailify(el)
+            elif t_ret and not _has_return(el):
+                T, E_ = tailify(tl), tailify(el + rest)
+            elif e_ret and not _has_return(tl):
+                T, E_ = tailify(tl + rest), tailify(el)
+            else:
+                return None
+            if T is None or E_ is None:
+                return None
+            out.append(S("if", cond=st.cond, then=S("block", body=T, line=st.line), els=S("block", body=E_, line=st.line) if E_ else None, line=st.line))
+            return out
+        return None
+    return out
+
+
+def inlinable(g):
+    """can calls  g(...);  be replaced by g's body?  -> reason it cannot, or None"""
+    body = g.body.body if (g.body is not None and g.body.k == "block") else None
+    if body is None:
+        return "no body"
+    if getattr(g, "_inl_reason", 0) != 0:
+        return g._inl_reason
+    g._inl_reason = _inlinable(g, body)
+    return g._inl_reason
+
+
+def _inlinable(g, body):
+    for st in swalk(g.body):
+        if st.k in ("goto", "label"):
+            return "goto / label"
+        if st.k == "decl" and st.var is not None and st.var.scope == "static":
+            return "static local"
+        if st.k == "omp":
+            return "OpenMP directive inside"
+    if tailify(list(body)) is None:
+        return "return inside a loop"
+    for st, x in all_exprs(g.body):
+        if x.k == "call" and x.name == g.name:
+            return "recursive"
+    return None
+
+
+_INLINE_COUNTER = [0]
+
+
+def inline_calls(func, byname, which=None, depth=2):
+    """copy of `func` in which every call statement  g(args);  of a function g in byname (restricted to the names in `which` when given)
+    that is inlinable() is replaced by a block holding g's body: a parameter is substituted by its argument when g never assigns it and
+    the argument is free of side effects and memory reads, otherwise it becomes a local initialised with the argument; g's locals are
+    renamed (<name>__<g><n>).  Returns (new Func, set of inlined callee names, set of callee names that stayed calls)."""
+    done, kept = set(), set()
+    new_locals = {}
+
+    def side_effect_free_plain(a):
+        return not any(x.k in ("asg", "incdec", "call", "idx", "member") or (x.k == "un" and x.op == "*") for x in ewalk(a))
+
+    def expand(call, line, d):
+        g = byname.get(call.name)
+        if g is None or g is func or (which is not None and g.name not in which) or inlinable(g) is not None or len(call.a) != len(g.params) or d <= 0:
+            if g is not None and g is not func:
+                kept.add(call.name)
+            return None
+        _INLINE_COUNTER[0] += 1
+        tag = "%s%d" % (g.name, _INLINE_COUNTER[0])
+        assigned = set()
+        for st, x in all_exprs(g.body):
+            if x.k in ("asg", "incdec") and x.a[0].k == "var":
+                assigned.add(x.a[0].decl)
+            if x.k == "un" and x.op == "&" and x.a[0].k == "var":
+                assigned.add(x.a[0].decl)
+        vmap = {}
+        pre = []
+        for p, a in zip(g.params, call.a):
+            aa = a
+            while aa.k == "cast" and aa.a and aa.a[0].ty == aa.ty:
+                aa = aa.a[0]
+            addr_ok = aa.k == "un" and aa.op == "&" and not any(x.k in ("asg", "incdec", "call") for x in ewalk(aa))
+            if p.decl not in assigned and (side_effect_free_plain(a) or addr_ok):
+                vmap[p.decl] = a
+            else:
+                v = E("var", name="%s__%s" % (p.name, tag), decl="inl:%s:%s" % (tag, p.name), ty=p.ty, scope="local", line=line)
+                new_locals[v.decl] = v
+                vmap[p.decl] = v
+                pre.append(S("decl", var=v, init=_clone_e(a, {}), line=line))
+        for did, lv in g.locals.items():
+            v = E("var", name="%s__%s" % (lv.name, tag), decl="inl:%s:%s" % (tag, lv.name), ty=lv.ty, scope="local", line=lv.line)
+            new_locals[v.decl] = v
+            vmap[did] = v
+        body = tailify([_clone_s(st, vmap) for st in g.body.body])
+        blk = S("block", body=pre + body, line=line, end_line=line)
+        done.add(g.name)
+        return rewrite(blk, d - 1)
+
+    def rewrite(s, d):
+        if s is None or not isinstance(s, S):
+            return s
+        ce = s.e if s.k == "expr" else None
+        while ce is not None and ce.k == "cast" and (ce.ty or "").strip() == "void":
+            ce = ce.a[0]          # (void)g(...);
+        if ce is not None and ce.k == "call":
+            r = expand(ce, s.line, d)
+            if r is not None:
+                return r
+            return s
+        for attr in ("then", "els"):
+            c = getattr(s, attr)
+            if isinstance(c, S):
+                setattr(s, attr, rewrite(c, d))
+        if isinstance(s.body, list):
+            s.body = [rewrite(c, d) for c in s.body]
+        elif isinstance(s.body, S):
+            s.body = rewrite(s.body, d)
+        for st2, x in ([] if s.k in ("block",) else [(s, y) for e in stmt_exprs(s) for y in ewalk(e)]):
+            if x.k == "call" and x.name in byname and byname[x.name] is not func:
+                kept.add(x.name)
+        return s
+    nf = Func(func.name, func.file, func.line, func.params, None, func.rettype, func.tu)
+    nf.locals = dict(func.locals)
+    nf.body = rewrite(_clone_s(func.body, {}), depth)
+    nf.locals.update(new_locals)
+    nf.inlined_from = sorted(done)
+    return nf, done, kept - done if False else kept
